@@ -371,6 +371,14 @@ var c03Adversarial = []string{
 	// dynamic xpaths that turn out boolean / numeric / string valued on the data
 	`{"parser_settings":{"version":"omni.2.1","file_format_type":"csv"},"file_declaration":{"delimiter":",","data_row_index":1,"columns":[{"name":"a"},{"name":"b"}]},"transform_declarations":{"FINAL_OUTPUT":{"object":{"x":{"array":[{"xpath_dynamic":{"const":"count(*) > 0"}}]},"y":{"array":[{"xpath_dynamic":{"const":"a = a"}},{"xpath_dynamic":{"xpath":"b"}}]},"z":{"xpath_dynamic":{"const":"1 = 1"}}}}}}`,
 	`{"parser_settings":{"version":"omni.2.1","file_format_type":"json"},"transform_declarations":{"FINAL_OUTPUT":{"xpath":"/*","object":{"x":{"array":[{"xpath_dynamic":{"const":"count(*) >= 0"},"object":{"k":{"xpath":"."}}}]},"y":{"array":[{"xpath_dynamic":{"custom_func":{"name":"concat","args":[{"const":"true"},{"const":"()"}]}}}]}}}}}`,
+	// target filters with numeric comparisons over cells that are not numbers (every reader evaluates the target xpath itself)
+	`{"parser_settings":{"version":"omni.2.1","file_format_type":"csv"},"file_declaration":{"delimiter":",","data_row_index":1,"columns":[{"name":"a"},{"name":"b"}]},"transform_declarations":{"FINAL_OUTPUT":{"xpath":".[b > 100]","object":{"a":{"xpath":"a"}}}}}`,
+	`{"parser_settings":{"version":"omni.2.1","file_format_type":"csv2"},"file_declaration":{"delimiter":",","records":[{"columns":[{"name":"a","index":1},{"name":"b","index":2}]}]},"transform_declarations":{"FINAL_OUTPUT":{"xpath":".[b < 3.5 or a >= 1]","object":{"a":{"xpath":"a"}}}}}`,
+	`{"parser_settings":{"version":"omni.2.1","file_format_type":"fixed-length"},"file_declaration":{"envelopes":[{"columns":[{"name":"a","start_pos":1,"length":2},{"name":"b","start_pos":3,"length":3}]}]},"transform_declarations":{"FINAL_OUTPUT":{"xpath":".[b > 7]","object":{"a":{"xpath":"a"}}}}}`,
+	`{"parser_settings":{"version":"omni.2.1","file_format_type":"fixedlength2"},"file_declaration":{"envelopes":[{"columns":[{"name":"a","start_pos":1,"length":2},{"name":"b","start_pos":3,"length":3}]}]},"transform_declarations":{"FINAL_OUTPUT":{"xpath":".[number(b) > 7 or b > 7]","object":{"a":{"xpath":"a"}}}}}`,
+	`{"parser_settings":{"version":"omni.2.1","file_format_type":"edi"},"file_declaration":{"segment_delimiter":"~","element_delimiter":"*","segment_declarations":[{"name":"A","is_target":true,"min":0,"max":-1,"elements":[{"name":"e","index":1}]}]},"transform_declarations":{"FINAL_OUTPUT":{"xpath":".[e > 1]","object":{"e":{"xpath":"e"}}}}}`,
+	`{"parser_settings":{"version":"omni.2.1","file_format_type":"json"},"transform_declarations":{"FINAL_OUTPUT":{"xpath":"/*[a > 3 or . > 1]","object":{"v":{"xpath":"a"}}}}}`,
+	`{"parser_settings":{"version":"omni.2.1","file_format_type":"xml"},"transform_declarations":{"FINAL_OUTPUT":{"xpath":"/*/*[b > 2]","object":{"v":{"xpath":"b"}}}}}`,
 	// xpath oddities evaluated on data
 	`{"parser_settings":{"version":"omni.2.1","file_format_type":"json"},"transform_declarations":{"FINAL_OUTPUT":{"xpath":"/*[a > 3]","object":{"v":{"xpath":"a[. > 3]"}}}}}`,
 	`{"parser_settings":{"version":"omni.2.1","file_format_type":"xml"},"transform_declarations":{"FINAL_OUTPUT":{"xpath":"//a[b >= c]","object":{"v":{"xpath":"b[. < ../c]"},"w":{"xpath_dynamic":{"xpath":"b"}}}}}}`,
